@@ -645,7 +645,7 @@ func genEntry(r *Rng, arena string, i int) UEntry {
 			e.Link = arena + "/p/q/dst/" + r.Pick([]string{"a", "d", "d/a"})
 		}
 		if r.Chance(3) {
-			e.Link = arena + "/p/q/" + r.Pick([]string{"outside.txt", "dst-evil"})
+			e.Link = arena + "/p/q/" + r.Pick([]string{"outside.txt", "dst-evil", "dst/../outside.txt", "dst/d/../../dst-evil/x", "dst/d/../a"})
 		}
 		e.Mode = 0777
 	case x < 95:
